@@ -594,8 +594,9 @@ class Interp:
             a0 = a
             while isinstance(a0, Paren):
                 a0 = a0.e
-            # an array literal's preferred type is the const array of its element type
-            at.append(arr(a0.t[1], True) if isinstance(a0, ArrLit) and is_arr(a0.t) else a0.t)
+            # an array literal's preferred type is the const array of the first element type all entries coerce to
+            # (its annotation may already be the parameter type it was bound to: recompute from the elements)
+            at.append(arr(natural_elem(a0), True) if isinstance(a0, ArrLit) and is_arr(a0.t) else a0.t)
         for f in cands:
             if len(f.params) == len(args) and all(self.param_type(p) == t for p, t in zip(f.params, at)):
                 return f
@@ -622,7 +623,24 @@ def shrinkable(e):
     return e.t == BYTE
 
 
+def natural_elem(lit):
+    """Preferred element type of an array literal (README: "array of the first type all entries can be coerced to")."""
+    seen = []
+    for x in lit.elems:
+        x0 = x
+        while isinstance(x0, Paren):
+            x0 = x0.e
+        if x0.t not in seen:
+            seen.append(x0.t)
+    for t in seen:
+        if all(coercible(x, t) for x in lit.elems):
+            return t
+    return lit.t[1]
+
+
 def coercible(a, pt):
+    while isinstance(a, Paren):
+        a = a.e
     t = a.t
     if t == pt:
         return True
